@@ -27,7 +27,7 @@ import aiofiles.os
 # from charset_normalizer import from_bytes
 
 if TYPE_CHECKING:
-    from collections.abc import AsyncIterator, Callable
+    from collections.abc import AsyncIterator, Callable, Iterator
     from email.message import EmailMessage
     from typing import IO
 
@@ -91,6 +91,24 @@ class MH(mailbox.MH):
             factory=self._factory,  # type: ignore[arg-type]
             create=False,
         )
+
+    ####################################################################
+    #
+    def iterkeys(self) -> "Iterator[int]":
+        """Return an iterator over the message keys, in ascending order.
+
+        Only files are messages. A sub-folder whose name is all digits
+        ("archive/2025") is a mailbox of its own, not message 2025 of this
+        folder: `mailbox.MH.iterkeys()` would list it and every attempt to
+        read that "message" then fails with IsADirectoryError.
+        """
+        with os.scandir(self._path) as entries:
+            keys = sorted(
+                int(entry.name)
+                for entry in entries
+                if entry.name.isdigit() and not entry.is_dir()
+            )
+        return iter(keys)
 
     ####################################################################
     #
